@@ -145,6 +145,12 @@ def body(ctx):
                 tr, fault = fault_trace(mode, ctx.seed, {k: kind}, base)
                 traces.append(tr)
                 meta.append(dict(kind='fault', mode=mode, at={str(k): kind}, call=calls[k][0] if k < len(calls) else '?'))
+        # a fault exactly at the close() that follows the healthy scenario, and at the connect() after it
+        for extra in (0, 1, 2, 3):
+            for kind in ('timeout', 'reset'):
+                tr, fault = fault_trace(mode, ctx.seed, {ncalls + extra: kind}, base)
+                traces.append(tr)
+                meta.append(dict(kind='fault-in-recovery', mode=mode, at={str(ncalls + extra): kind}))
         if not ctx.quick:
             for _ in range(600):
                 k1 = rng.randrange(ncalls)
